@@ -768,14 +768,13 @@ fn gen_triangular_t<T: RealNumber>(c: &mut Case) {
             0.0
         }
     });
-    let mut inp = GenInput::plain(rnd::<T>(a), kinds[k]);
+    let inp = GenInput::plain(rnd::<T>(a), kinds[k]);
     if upper {
         c.bucket("triangular:upper");
     } else {
         c.bucket("triangular:lower");
     }
     c.bucket_if(jordan, "triangular:jordan-block");
-    inp.kind = kinds[k].to_string();
     check_gen::<T>(c, &inp);
 }
 
